@@ -253,9 +253,11 @@ func (p *PacketOut) MarshalBinary() (data []byte, err error) {
 		n += len(b)
 	}
 
-	b, err = p.Data.MarshalBinary()
-	copy(data[n:], b)
-	n += len(b)
+	if p.Data != nil {
+		b, err = p.Data.MarshalBinary()
+		copy(data[n:], b)
+		n += len(b)
+	}
 	return
 }
 
